@@ -50,4 +50,26 @@ M_A == << MD("m1", <<"x", "y">>, {"seq"}, { G("X", <<Par("x")>>), G("X", <<QI("r
 T_A == { G("X", <<QI("r", 1)>>), G("X", <<QAl("s")>>), G("CX", <<QI("w", 0), QI("t", 0)>>), G("m1", <<QI("r", 0), I1>>),
          G("m1", <<QAl("s"), Let("a")>>), G("X", <<Qb("r", Let("a"))>>) }
 O_A == { OSeq, OPar, OLoop(I2, FALSE), OSub(I1) }
+
+\* ---------------------------------------------------------------- C10 / C11: all four passes have work to do
+H_X == { Hdr(<<DLet("a", I1), DLet("n", I2)>>, <<DReg("q", I3), DSlice("r", "q", Let("a"), None, None)>>, <<>>, <<>>),
+         Hdr(<<DLet("a", I1), DLet("n", I2)>>, <<DReg("q", I3), DSlice("r", "q", I0, Let("n"), None)>>, <<>>, ExactGates) }
+M_X == << MD("m1", <<"x">>, {"seq"}, { G("X", <<Par("x")>>), G("X", <<QI("r", 0)>>) }, { OSub(I1) }, 1),
+          MD("m2", <<"x", "y">>, {"seq", "par"}, { G("m1", <<Par("x")>>), G("R", <<Par("x"), Par("y")>>) }, {}, 1) >>
+T_X == { G("X", <<QI("r", 0)>>), G("m1", <<Qb("q", Let("a"))>>), G("m2", <<QI("q", 2), Let("n")>>),
+         G("prepare_all", <<>>), G("measure_all", <<>>) }
+O_X == { OSeq, OPar, OLoop(Let("n"), FALSE), OSub(I1), OSub(Let("n")) }
+
+\* ---------------------------------------------------------------- C07: colliding names (lexical scoping)
+\* let a, register q, alias r  versus macro parameters a, q, r; the same statement text in two scopes
+H_B == { Hdr(<<DLet("a", I1)>>, <<DReg("q", I3), DSlice("r", "q", I1, I3, None)>>, <<>>, <<>>) }
+M_B == << MD("f", <<"a">>, {"seq"}, { G("g", <<Par("a")>>), G("g", <<Qb("q", Par("a"))>>), G("g", <<QI("r", 0)>>),
+                                       G("g", <<QI("q", 0)>>) }, {}, 2),
+          MD("h", <<"q">>, {"seq"}, { G("g", <<Par("q")>>), G("g", <<QbP("q", I0)>>), G("g", <<QbP("q", Let("a"))>>),
+                                       G("g", <<Let("a")>>) }, {}, 2),
+          MD("k", <<"r", "a">>, {"seq"}, { G("g", <<QbP("r", I0)>>), G("g", <<QbP("r", Par("a"))>>), G("g", <<Par("a")>>) }, {}, 1) >>
+M_BQ == << [M_B[1] EXCEPT !.max = 1], [M_B[2] EXCEPT !.max = 1], M_B[3] >>
+T_B == { G("g", <<Let("a")>>), G("g", <<Qb("q", Let("a"))>>), G("g", <<QI("r", 0)>>), G("g", <<QI("q", 0)>>),
+         G("f", <<I2>>), G("h", <<RegA("r")>>), G("k", <<RegA("q"), I2>>) }
+O_B == { OLoop(Let("a"), FALSE) }
 =============================================================================
